@@ -210,6 +210,9 @@ type Env struct {
 	panics   []PanicRec
 
 	serveDone chan error
+	stopOnce  sync.Once
+	stopErr   error
+	stopOK    bool
 	UserMap   wire.Parameters // the map handed to GlobalParameters
 	userCopy  map[string]string
 }
@@ -365,6 +368,11 @@ func (e *Env) NewConn() *memnet.Conn {
 
 // Stop closes the server and waits for Serve to return (guarded).
 func (e *Env) Stop() (serveErr error, ok bool) {
+	e.stopOnce.Do(func() { e.stopErr, e.stopOK = e.stop() })
+	return e.stopErr, e.stopOK
+}
+
+func (e *Env) stop() (serveErr error, ok bool) {
 	// end every client connection so that the per-connection goroutines (and
 	// their read buffers, 16 MiB each at the default limit) are released
 	e.mu.Lock()
